@@ -112,6 +112,14 @@ impl Prop for C18 {
       out.push(Case { id: format!("select;form=scalar;n={}", i), cell: "select;form=scalar".into(), input: json!({"mode": "select", "a": a, "form": "scalar", "idx": [idx[0]]}) });
       if idx.len() >= 2 { out.push(Case { id: format!("select;form=vector;n={}", i), cell: "select;form=vector".into(), input: json!({"mode": "select", "a": a, "form": "vector", "idx": idx}) }); }
       if nr >= 2 { out.push(Case { id: format!("select;form=mask;n={}", i), cell: "select;form=mask".into(), input: json!({"mode": "select", "a": a, "form": "mask", "mask": mask}) }); }
+      // chained selections: the second subscript applies to a temporary table (index vector, then index vector of another
+      // length; logical mask, then index vector)
+      let first: Vec<usize> = (0..2 + rng.below(4)).map(|_| 1 + rng.below(nr as u64) as usize).collect();
+      let second: Vec<usize> = (0..2 + rng.below(first.len() as u64)).map(|_| 1 + rng.below(first.len() as u64) as usize).collect();
+      out.push(Case { id: format!("select;form=chain-vv;n={}", i), cell: "select;form=chain-vv".into(), input: json!({"mode": "select", "a": a, "form": "chain-vv", "idx": first, "idx2": second}) });
+      let kept = mask.iter().filter(|b| **b).count();
+      let second_m: Vec<usize> = (0..2 + rng.below(3)).map(|_| 1 + rng.below(kept as u64) as usize).collect();
+      if nr >= 2 { out.push(Case { id: format!("select;form=chain-mv;n={}", i), cell: "select;form=chain-mv".into(), input: json!({"mode": "select", "a": a, "form": "chain-mv", "mask": mask, "idx2": second_m}) }); }
     }
     out
   }
@@ -151,6 +159,12 @@ impl Prop for C18 {
         let (src, want): (String, Vec<Row>) = match case.input["form"].as_str().unwrap() {
           "scalar" => { let i = case.input["idx"][0].as_u64().unwrap() as usize; (format!("A[{}]", i), vec![rows[i - 1].clone()]) }
           "vector" => { let idx: Vec<usize> = serde_json::from_value(case.input["idx"].clone()).unwrap(); (format!("A[[{}]]", idx.iter().map(|i| i.to_string()).collect::<Vec<_>>().join(" ")), idx.iter().map(|i| rows[i - 1].clone()).collect()) }
+          "chain-vv" => { let idx: Vec<usize> = serde_json::from_value(case.input["idx"].clone()).unwrap(); let idx2: Vec<usize> = serde_json::from_value(case.input["idx2"].clone()).unwrap();
+            let f = |v: &Vec<usize>| v.iter().map(|i| i.to_string()).collect::<Vec<_>>().join(" ");
+            (format!("A[[{}]][[{}]]", f(&idx), f(&idx2)), idx2.iter().map(|j| rows[idx[j - 1] - 1].clone()).collect()) }
+          "chain-mv" => { let m: Vec<bool> = serde_json::from_value(case.input["mask"].clone()).unwrap(); let idx2: Vec<usize> = serde_json::from_value(case.input["idx2"].clone()).unwrap();
+            let kept: Vec<Row> = rows.iter().zip(m.iter()).filter(|(_, b)| **b).map(|(r, _)| r.clone()).collect();
+            (format!("A[[{}]][[{}]]", m.iter().map(|b| b.to_string()).collect::<Vec<_>>().join(" "), idx2.iter().map(|i| i.to_string()).collect::<Vec<_>>().join(" ")), idx2.iter().map(|j| kept[j - 1].clone()).collect()) }
           _ => { let m: Vec<bool> = serde_json::from_value(case.input["mask"].clone()).unwrap(); (format!("A[[{}]]", m.iter().map(|b| b.to_string()).collect::<Vec<_>>().join(" ")), rows.iter().zip(m.iter()).filter(|(_, b)| **b).map(|(r, _)| r.clone()).collect()) }
         };
         let res = s.eval(&src);
